@@ -45,6 +45,8 @@ type pushReq struct {
 	done     bool
 	class    int // 0 fast ack, 1 slow ack, 2 nack
 	released bool
+	// afterFault: arrived between the injected storage fault and the next quiescence
+	afterFault bool
 }
 
 type pushSim struct {
@@ -64,6 +66,10 @@ type pushSim struct {
 	// nackRace: ack ids whose failed, slow request may be processed (and, with the attempts
 	// used up by an overlapping second push, dead-letter the delivery) only after a later fetch
 	nackRace map[string]bool
+	faultAt  time.Time // when the injected storage fault fired (zero: not yet / never)
+	// faultOpen: from the fault to the next quiescence requests may still come from the pusher
+	// that the fault killed (its outcome queues are gone)
+	faultOpen bool
 }
 
 type envelope struct {
@@ -88,7 +94,7 @@ func (ps *pushSim) RoundTrip(req *http.Request) (*http.Response, error) {
 	jerr := json.NewDecoder(strings.NewReader(string(body))).Decode(&env)
 	S.YieldTag(req.Context(), "http-arrive", fmt.Sprintf("%s-%03d", env.Message.MessageID, env.DeliveryAttempt))
 	now := time.Now()
-	p := &pushReq{id: len(ps.reqs), arrived: now}
+	p := &pushReq{id: len(ps.reqs), arrived: now, afterFault: ps.faultOpen}
 	ps.reqs = append(ps.reqs, p)
 	ps.inflight++
 	if ps.inflight > ps.maxIn {
@@ -212,6 +218,15 @@ func (ps *pushSim) RoundTrip(req *http.Request) (*http.Response, error) {
 			r.M.deadLetterMaybe(e, t1)
 			e.DLMaybe = false // (still outstanding for the ack / nack that follows)
 		}
+		if !ps.faultAt.IsZero() && (!p.arrived.After(ps.faultAt) || p.afterFault) {
+			// this request was in flight when the storage fault hit the server: the pusher that
+			// sent it may be gone, and its outcome with it
+			e.Fuzzy = true
+			if ps.sub.Cfg.fullDL() && e.State == stOut {
+				r.M.deadLetterMaybe(e, t1)
+			}
+			return nil
+		}
 		if ps.stopped {
 			// the endpoint was removed in this round: the pusher is being cancelled and may
 			// drop outcomes it has not committed yet; nothing is known about this delivery
@@ -334,6 +349,16 @@ func runPush(t *testing.T, tape *Tape, w *World, variant string, steps int, out 
 	stalled := tape.Bool(15)
 	if stalled {
 		r.Stats["push_stalled_server_runs"]++
+	}
+	// fault: one storage error inside the server while pushes are under way (a statement of
+	// whatever transaction comes next fails). A pusher hit by it dies and is restarted by its
+	// monitor. What was in flight then is unknown afterwards (acks / nacks may be lost, pushes
+	// repeated); what is published AFTER the fault must be pushed like before.
+	sqlFault := !stalled && tape.Bool(20)
+	sqlFaultAt, sqlArmed, sqlDone := 0, false, false
+	if sqlFault {
+		sqlFaultAt = 20 + tape.Intn(300)
+		r.Stats["push_sql_fault_runs"]++
 	}
 	ps := &pushSim{r: r, sub: sub, fail: fail, pending: &pending, seen: map[string]int{}, stalled: stalled, nackRace: map[string]bool{}}
 	// swarm mode "burst": after a warm-up of fast successes (window grows) every request
@@ -505,8 +530,41 @@ func runPush(t *testing.T, tape *Tape, w *World, variant string, steps int, out 
 				return true
 			}
 			tape.Frame()
+			if sqlFault && !sqlArmed && c.steps >= sqlFaultAt {
+				sqlArmed = true
+				S.Arm(FaultStmtErr, 1+tape.Intn(4), nil)
+				r.ev("storage fault armed: the next statements of the server fail once")
+			}
 			S.Resume(allowed[tape.Intn(len(allowed))])
 			c.steps++
+			if sqlArmed && !sqlDone {
+				if S.Fired() {
+					sqlDone = true
+					S.Disarm()
+					r.Stats["push_sql_fault_fired"]++
+					r.ev("storage fault fired")
+					// everything delivered or in flight so far is unknown from here on (applied to
+					// the model in commit order with the other operations, at the next quiescence)
+					at := time.Now()
+					pending = append(pending, seqOp{S.commitSeq, func() *Violation {
+						for _, s2 := range r.M.AllSubs {
+							for _, e := range s2.EDs {
+								if e.State != stGone {
+									e.Fuzzy = true
+									e.LeaseLo = epoch
+									e.LeaseHi, e.RetHi = farFuture, farFuture
+									if e.Sub.Cfg.fullDL() && e.State == stOut {
+										r.M.deadLetterMaybe(e, at)
+									}
+								}
+							}
+						}
+						return nil
+					}})
+					ps.faultAt = at
+					ps.faultOpen = true
+				}
+			}
 		}
 		return false
 	}
@@ -521,6 +579,7 @@ func runPush(t *testing.T, tape *Tape, w *World, variant string, steps int, out 
 	}
 	settleNacks := func() {
 		clear(ps.nackRace) // quiescent: every nack has been processed
+		ps.faultOpen = false
 		now := time.Now()
 		for _, e := range sub.EDs {
 			if e.State == stOut && e.Cause == "nack" && e.LeaseHi.Equal(farFuture) {
@@ -545,6 +604,10 @@ func runPush(t *testing.T, tape *Tape, w *World, variant string, steps int, out 
 						key = "K1"
 					}
 					ap, err := r.pubRaw(ctx, id, 0, r.genPayload(5000+pubCounter*10+k), r.genAttrs(), key)
+					if err != nil && sqlFault && strings.Contains(err.Error(), "simulated storage failure") {
+						// the injected storage error hit this publish: nothing was stored, retry
+						ap, err = r.pubRaw(ctx, id, 0, r.genPayload(5000+pubCounter*10+k), r.genAttrs(), key)
+					}
 					if err != nil {
 						fail(viol("C12", "status", "%s: %v", id, err))
 						return
